@@ -114,7 +114,10 @@ def _observe(job):
                 import pandas as pd
                 m.fit(pd.Series(X.copy(), index=np.random.RandomState(seed).permutation(len(X)) + 5, name='col'))
             else:
-                m.fit(X.copy())
+                Xc = X.copy()
+                m.fit(Xc)
+                if past % 2 == 0:       # the caller reuses its buffer after the fit: the model is that of the data it was fitted to
+                    Xc[:] = Xc[::-1] * 0.5 - 3.0
         except Exception as ex:
             return {'skip': True, 'model': mname, 'shape': shape, 'n': n, 'why': 'fit raised ' + type(ex).__name__}
         lo, hi = float(np.min(X)), float(np.max(X))
@@ -294,6 +297,13 @@ def _constant(job):
         rec['stepBelow'] = bool(np.all(np.asarray(m.cumulative_distribution(below)) == 0.0))
         rec['stepAt'] = bool(np.all(np.asarray(m.cumulative_distribution(at)) == 1.0))
         rec['ppfIsC'] = bool(np.all(np.asarray(m.percent_point(np.array([0.01, 0.5, 0.99]))) == c))
+        # probabilities are numbers in [0, 1] whatever their container type: the end points as integers, single precision
+        for q in (np.array([0, 1]), np.array([0.25, 0.5, 1.0], dtype=np.float32), np.array([1], dtype=np.int32)):
+            rec['ppfIsC'] = rec['ppfIsC'] and bool(np.all(np.asarray(m.percent_point(q), dtype=float) == float(c)))
+        for x in (np.array([int(np.floor(c)) - 1, int(np.ceil(c)) + 1]), np.array([c - 2.0, c + 2.0], dtype=np.float32)):
+            F = np.asarray(m.cumulative_distribution(x), dtype=float)
+            rec['stepBelow'] = rec['stepBelow'] and bool(F[0] == 0.0)
+            rec['stepAt'] = rec['stepAt'] and bool(F[1] == 1.0)
         rec['sampleIsC'] = bool(np.all(np.asarray(m.sample(7)) == c) and len(np.ravel(m.sample(7))) == 7)
     except Exception as ex:
         rec['err'] = 'raised-' + type(ex).__name__
